@@ -425,6 +425,7 @@ func init() {
 		nprof := fs.Int("profiles", 3, "number of render profiles (1 = plain only)")
 		astfile := fs.String("astfile", "/repo/ast/ast.go", "ast.go (node documentation for C19)")
 		seed := fs.Int64("seed", 1, "seed for prune sets")
+		dump := fs.String("dump", "", "only render the tapes (plain profile) into a corpus file {dir,name,text}")
 		fs.Parse(args)
 		g := &gramRun{props: map[string]bool{}, stats: gramStats{Evals: map[string]int{}, Findings: map[string]int{}, Kinds: map[string]int{}, Starts: map[string]int{}}}
 		for _, p := range strings.Split(*props, ",") {
@@ -473,11 +474,42 @@ func init() {
 				return err
 			}
 		}
+		var dumpW *bufio.Writer
+		if *dump != "" {
+			df, err := os.Create(*dump)
+			if err != nil {
+				return err
+			}
+			defer df.Close()
+			dumpW = bufio.NewWriter(df)
+			defer dumpW.Flush()
+		}
 		_, err = readTLCLines(*in, func(raw []byte) error {
 			g.line++
 			s, err := parseTape(raw)
 			if err != nil {
 				return fmt.Errorf("line %d: %v", g.line, err)
+			}
+			if dumpW != nil {
+				text, _, _ := render(s.Toks, false, g.profiles[0])
+				dir := map[string]string{"expr": "expr", "type": "type"}[rootClass(s.Start)]
+				if dir == "" {
+					switch {
+					case s.Start == "DDL":
+						dir = "ddl"
+					case s.Start == "DML":
+						dir = "dml"
+					case s.Start == "QueryStatement" || strings.HasPrefix(s.Start, "QS_"):
+						dir = "query"
+					default:
+						dir = "statement"
+					}
+				}
+				b, _ := json.Marshal(map[string]string{"dir": dir, "name": fmt.Sprintf("G-%s-%d", s.Start, g.line), "text": text})
+				dumpW.Write(b)
+				dumpW.WriteByte('\n')
+				g.stats.Sentences++
+				return nil
 			}
 			g.sentence(s)
 			return nil
